@@ -209,7 +209,10 @@ def check_C12(tier, nproc=None):
         for wb in (False, True):
             c.add(Job('vH_C12_string', [('bytes', 'd', n), ('bool', wb)], weight=3 ** n))
     for kind in range(6):
-        for nd in ([10, 11, 19, 20] if tier == 'quick' else [9, 10, 11, 18, 19, 20, 21]):
+        nds = [9, 10] if kind in (2, 3) else [18, 19]
+        if tier != 'quick':
+            nds = [8, 9, 10, 11] if kind in (2, 3) else [17, 18, 19, 20]
+        for nd in nds:
             for tail in (b'', b'null'):
                 c.add(Job('vH_C12_int', [('tmpl', 'd', [1, nd, tail]), ('int', kind)], weight=nd * 30))
     c.bounds = {'N': N, 'prior_target': 'free 64-bit value / free bool / string of length 0 or 2 with free bytes'}
